@@ -112,6 +112,24 @@ CLAIMED = {
         technique="contract-based deductive verification of the real Python functions: per-token and structural "
                   "obligations, path-wise VCs from ast.parse, z3 strings",
     ),
+    'C11': dict(
+        category='proof', engine='cvc+pyvc',
+        text="The serialisation between emit_python_code() and the C loader is verified on both sides: "
+             "format_four_bytes / CffiOp.as_python_bytes emit the text of the four big-endian bytes of n mod 2^32 "
+             "(array lengths >= 2^31 are refused, never truncated), cdl_4bytes / cdl_opcode read them back, two "
+             "loops of ffiobj_init (type words; names, opcodes and integer constants of globals) are verified as "
+             "loop-body contracts, _cdl_realize_global_int / realize_global_int return the exact integer for the "
+             "(sign flag, value mod 2^64) pair; bit-vector lemmas close the round trips (GETOP/GETARG of an encoded "
+             "(op, arg); every integer constant in [-2^63, 2^64)).",
+        design_ref='DESIGN.md section 4 C11',
+        note=COMMON_NOTE + "Whole-module equality (same list_types(), same dlopen()ed symbols, same realised ctypes) "
+             "is not decided by contracts on single functions; the rest of ffiobj_init (argument parsing, allocation, "
+             "struct/enum/typename loops) and the recompiler's table construction are not under contract. Known "
+             "divergences recorded in DESIGN.md (FILE/_IO_FILE in list_types, pack=N refused, constants >= 2^64 "
+             "truncated) are outside the proved ingredients.",
+        technique="contract-based deductive verification on both sides of the encoding: pyvc (ast.parse) + cvc "
+                  "(clang AST, loop-body contracts), z3 bit-vector round-trip lemmas",
+    ),
     'C16': dict(
         category='proof',
         text="Index, slice and pointer-arithmetic functions are verified against the byte model: an array index is "
